@@ -100,6 +100,9 @@ func runC02(p *Program, e *Engine, r *Result, tier string) {
 
 	// (3) origins
 	c02Origins(a, df, tr, trCall, hctx)
+	// the value sent in the decode loop is the event returned by THIS iteration's handler call, on every path through the
+	// body (not a variable that may still hold an earlier record's event) - shared with C01.1
+	c01Loop(a, df, "C02.3")
 
 	// (4) Remove => silence
 	c02RemoveSilence(a, df, hv, hctx)
@@ -142,8 +145,17 @@ func c02Origins(a *An, df *DecodeFacts, tr *extracted, trCall *Visit, hctx *Ctx)
 			n++
 			ok2 := isReader && v.Ctx.Fn == df.LoopFn && v.Ctx.Depth == len(df.Chain) && len(df.SendCalls) == 1 && call == df.SendCalls[0]
 			why := "the decode loop's send of the handler result"
-			if !ok2 {
-				arg := call.Call.Args[len(call.Call.Args)-1]
+			arg := ro.eventArg(call)
+			if !ok2 && arg != nil {
+				// inside a send wrapper: judged at the wrapper's call site; and a zero Event is never put on the channel
+				// (the send function skips Op == 0, C02.2)
+				if _, inWrap := ro.SendWrap[v.Ctx.Fn]; inWrap && v.Ctx.Parent != nil {
+					ok2, why = true, "inside the send wrapper "+shortFn(v.Ctx.Fn)+" (its call sites are judged)"
+				} else if zeroEvent(v.Ctx, arg) {
+					ok2, why = true, "a zero Event (nothing is delivered for Op == 0)"
+				}
+			}
+			if !ok2 && arg != nil {
 				why = sprintf("event-send reached via %s with argument %s", v.Ctx.chain(), stripIDs(v.Ctx.path(arg)))
 			}
 			a.R.ob("C02.3", "event-send@"+shortFn(call.Parent()), "events are sent only from the decode loop, and only the handler's result for the record being decoded", a.P.instrPos(call), ok2, why)
